@@ -29,7 +29,8 @@ Record case := mkCase
     ofired : list (bool * bool);  (* first entry: start of the call; then per event: a function was
                                      released; the call has returned at the following quiescence *)
     oacts : list nat;             (* per entry of ofired, what was executed: 0 nothing, 1 ordinary action,
-                                     2 fault (cancel / panic / context end), 3 Write of the reducer *)
+                                     2 panic / context end, 3 Write of the reducer, 4 cancel call,
+                                     5 the generator function returns *)
     oresult : option outcome;     (* None: the call did not return *)
     omapped : list Z;             (* items the mapper was called with (sorted) *)
     oreduced : list Z;            (* values the reducer function received (sorted) *)
@@ -293,9 +294,28 @@ Fixpoint fault_before_commit (prev_ret : bool) (l : list ((bool * bool) * nat)) 
   | ((f, r), k) :: tl =>
     if negb f then fault_before_commit prev_ret tl
     else if prev_ret then false
-    else if k =? 2 then true
+    else if (k =? 2) || (k =? 4) then true
     else if k =? 3 then false
     else fault_before_commit r tl
+  end.
+
+(* promptness (Props.prompt_after_cancel / prompt_after_ctx_branch / ctx_seen_at_select): once a
+   cancel call has been executed - or the context has ended while the caller was still at its select
+   (no reducer Write taken, no panic received before) - and the generator function has ended, the call
+   must have returned at that very quiescence: only library steps are needed, the call does not
+   wait for mapper / reducer functions that are still parked.  [evs] are the events of the entries
+   (None for the start of the call). *)
+Fixpoint prompt_ok (auto : bool) (l : list (option event * ((bool * bool) * nat)))
+         (gen_ended pending committed : bool) : bool :=
+  match l with
+  | [] => true
+  | (e, ((f, r), k)) :: tl =>
+    let isgen := match e with Some EvGen => true | _ => false end in
+    let isctx := match e with Some EvCtx | None => true | _ => false end in
+    let ge := gen_ended || (f && ((k =? 5) || (isgen && (k =? 2)))) in
+    let pd := pending || (f && ((k =? 4) || ((k =? 2) && isctx && negb committed))) in
+    let cm := committed || (f && ((k =? 3) || ((k =? 2) && negb isctx))) in
+    (if pd && (auto || ge) then r else true) && prompt_ok auto tl ge pd cm
   end.
 
 Definition last_is_recvall (l : list uact) : bool :=
@@ -353,6 +373,8 @@ Definition prop_ok (c : case) : bool :=
              match o with OErr _ | OPanic _ => true | _ => false end
            else true)
      end
+  (* the call does not wait for straggling mapper / reducer functions after a cancel / context end *)
+  && (fe || prompt_ok (is_auto a) (combine (None :: map Some (cevents c)) (combine (ofired c) (oacts c))) false false false)
   (* at most [workers] mapper functions at once *)
   && (opeak c <=? w)
   (* no item is mapped twice, and only generated items are mapped *)
